@@ -32,6 +32,10 @@ pub struct Case {
     /// a long pause of the writer: before segment .0 is appended the reader polls .1 times in vain (in the middle of a line, too)
     #[serde(default)]
     pub long_idle: Option<(usize, u16)>,
+    /// executor level only: k > 0 = up to k bytes of the existing content have been read through the handle before
+    /// FollowFileExecutor::new gets it (a handle whose cursor is not at 0)
+    #[serde(default)]
+    pub used_handle: usize,
 }
 
 pub struct C10;
@@ -199,7 +203,7 @@ impl Property for C10 {
     fn rule(&self) -> String {
         "content (0-8 lines over an alphabet with 1-4 byte characters, CR, empty lines, lines longer than the reader buffer, optional unterminated tail; one case in 150: 100-400 KiB in thousands of lines or a few lines of 70 KiB each, buffers up to 100 000 bytes) x the set of byte offsets at which the \
          reader observes EOF (single bytes, inside multi-byte characters, just before / after the newline) x idle polls x reader buffer capacity {1,2,3,5,16,8192} x content pre-existing at start-up \
-         x --head on/off; executed with the follow_idle hook so that appends land exactly at the reader's EOF observations. Oracle: delivered strings = the newline-terminated lines of the content \
+         x --head on/off (one case in 40 through the real FollowFileExecutor in a child process, half of those with a handle through which existing content has been read before, i.e. whose cursor is not at 0); executed with the follow_idle hook so that appends land exactly at the reader's EOF observations. Oracle: delivered strings = the newline-terminated lines of the content \
          (from byte 0 with --head, else from the first byte appended after start-up), each once, in order, byte-exact; the unterminated tail never. Bounded-exhaustive: every content over {a, é, €, \\n} \
          up to 5 (quick) / 8 (thorough) bytes x every poll subset x 4 capacities x head. Non-trivial: a poll falls strictly inside a line; distinct by case."
             .to_string()
@@ -303,7 +307,7 @@ impl Property for C10 {
             _ => 0,
         };
         let exec_level = t.chance(1, 40);
-        let mut case = Case { long_idle: None, content, polls, idle: Vec::new(), pre: 0, head, capacity: if big { *t.pick(&[16usize, 8192, 8192, 65536, 100_000]) } else { *t.pick(&CAPACITIES) }, exec_level };
+        let mut case = Case { long_idle: None, content, polls, idle: Vec::new(), pre: 0, head, capacity: if big { *t.pick(&[16usize, 8192, 8192, 65536, 100_000]) } else { *t.pick(&CAPACITIES) }, exec_level, used_handle: 0 };
         if !head {
             // the start position must be a character boundary (the content before it is not read)
             let b = boundaries(&case);
@@ -316,6 +320,10 @@ impl Property for C10 {
         // one case in thirty: the writer pauses for a thousand or two polls before one of the appends (index among the appends after start-up)
         if !case.exec_level && t.chance(1, 30) {
             case.long_idle = Some((t.draw(nseg + 1), *t.pick(&[1000u16, 1023, 1024, 1025, 2048, 2100, 4100])));
+        }
+        // drawn last (earlier tapes keep their cases): half of the executor-level cases hand over a handle that has been read from
+        if case.exec_level && t.chance(1, 2) {
+            case.used_handle = *t.pick(&[1usize, 2, 3, 7, 100_000]);
         }
         case
     }
@@ -346,7 +354,7 @@ impl Property for C10 {
             }
         }
         // without --head everything is appended after start-up (pre = 0): same expectation, other seek path
-        Some(Case { content, polls, idle: Vec::new(), pre: 0, head, capacity, exec_level: false, long_idle: None })
+        Some(Case { content, polls, idle: Vec::new(), pre: 0, head, capacity, exec_level: false, long_idle: None, used_handle: 0 })
     }
 
     fn enum_description(&self) -> Option<String> {
@@ -405,7 +413,11 @@ impl Property for C10 {
                 head: case.head,
                 interrupt_at_probe: None,
                 file: ctx.file("follow-exec.txt").to_string_lossy().to_string(),
+                used_handle: case.used_handle,
             };
+            if case.used_handle > 0 && b[pre] > 0 {
+                obs.label("executor-level: used handle");
+            }
             let out = match crate::follow_child::run_follow(ctx, &job) {
                 Ok(o) => o,
                 Err(e) => {
@@ -430,7 +442,7 @@ impl Property for C10 {
             if got != want || out.result.is_err() {
                 return Err(Failure::new(
                     format!("executor-level: {}", if case.head { "head" } else if pre > 0 { "tail-with-existing-content" } else { "tail" }),
-                    format!("content {:?}, polls {:?}, {} bytes present at start-up, head={}\n  FollowFileExecutor delivered {:?} ({:?})\n  expected {:?}", case.content, &b[1..b.len() - 1], b[pre], case.head, got, out.result, want),
+                    format!("content {:?}, polls {:?}, {} bytes present at start-up, head={}, bytes read through the handle beforehand: up to {}\n  FollowFileExecutor delivered {:?} ({:?})\n  expected {:?}", case.content, &b[1..b.len() - 1], b[pre], case.head, case.used_handle, got, out.result, want),
                 ));
             }
             return Ok(());
